@@ -131,11 +131,11 @@ def run(ctx):
                        'tolerance of clause a 1e-5 relative to the largest RDM entry (LDL pivots clipped at 1e-15)']
     salt = ctx.seed
     if thorough:
-        runs = [('models', dict(nconds='{2,3,4}', grid='GridA', keepmod=8), 'm_A234'),
+        runs = [('models', dict(nconds='{2,3,4}', grid='GridA', keepmod=12), 'm_A234'),
                 ('models', dict(nconds='{2,3,4}', grid='GridB', keepmod=96), 'm_B234'),
-                ('models', dict(nconds='{5}', grid='GridQ', keepmod=4), 'm_Q5'),
-                ('models', dict(nconds='{5}', grid='GridA', keepmod=96, offs='Offs'), 'm_A5'),
-                ('models', dict(nconds='{3,4,5}', grid='GridL', keepmod=8), 'm_L'),
+                ('models', dict(nconds='{5}', grid='GridQ', keepmod=8), 'm_Q5'),
+                ('models', dict(nconds='{5}', grid='GridA', keepmod=160, offs='Offs'), 'm_A5'),
+                ('models', dict(nconds='{3,4,5}', grid='GridL', keepmod=12), 'm_L'),
                 ('protocol', dict(nconds='{2,3,4,5}', offs='OffsFew', keepmod=4), 'p_cat')]
     else:
         runs = [('models', dict(nconds='{2,3,4}', grid='GridA', keepmod=64), 'm_A234'),
